@@ -87,18 +87,14 @@ mod proofs {
         let g = grouping_cell.borrow();
         check_groups(N, &|i, j| keys[i] == keys[j], &g[..], unique.len(), &|g, i| unique[g] == keys[i], c);
     }
-    // two-column byte-slice keys (row length 2), 3 rows; each cell one of two one-byte strings or the empty string
-    #[kani::proof]
-    #[kani::unwind(8)]
-    fn byte_slice_rows() {
-        const R: usize = 3;
+    // two-column byte-slice keys (row length 2), R rows; each cell one of two one-byte strings or the empty string
+    fn run_byte_slice_rows<const R: usize>() {
         static A: [u8; 1] = [b'a'];
         static B: [u8; 1] = [b'b'];
         static E: [u8; 0] = [];
         let pick = |k: u8| -> &'static [u8] { match k % 3 { 0 => &A[..], 1 => &B[..], _ => &E[..] } };
-        let sel: [u8; 2 * R] = kani::any();
         let mut input = ByteSlices::new(2);
-        for c in 0..2 * R { input.data.push(pick(sel[c])); }
+        for c in 0..2 * R { input.data.push(pick(kani::any())); }
         let mut unique = ByteSlices::new(2);
         let grouping_cell: RefCell<Vec<u32>> = RefCell::new(Vec::new());
         let c = grouping_byte_slices_execute(false, &input, grouping_cell.borrow_mut(), &mut unique);
@@ -107,6 +103,12 @@ mod proofs {
         assert!(unique.data.len() % 2 == 0, "[whole-rows] the kept keys are whole rows");
         check_groups(R, &same, &g[..], unique.data.len() / 2, &|gid, i| unique.data[2 * gid] == input.data[2 * i] && unique.data[2 * gid + 1] == input.data[2 * i + 1], c);
     }
+    #[kani::proof]
+    #[kani::unwind(8)]
+    fn byte_slice_rows_two() { run_byte_slice_rows::<2>(); }
+    #[kani::proof]
+    #[kani::unwind(8)]
+    fn byte_slice_rows_three() { run_byte_slice_rows::<3>(); }
     // two-column mixed-value keys (row length 2), R rows; each cell NULL, an integer or a float
     fn run_val_rows<const R: usize>() {
         let mut input = ValRows::new(2);
